@@ -119,67 +119,130 @@ def args(R, ctx):
     R.require(rid, "floor", n >= 1, "", "%d preserve branches" % n)
 
 
+EXPR_T = "nodes::expressions::Expression"
+
+
 def keep(R, ctx):
+    """preserve_arguments_side_effects as a function from argument lists to kept lists, by finite-domain evaluation."""
+    import itertools
+    from .. import peval
+    from ..peval import Enum, Struct, UNKNOWN
     rid = "C17.keep"
     lib = ctx.lib
-    R.rule(rid, "preserve_arguments_side_effects: every expression pushed/collected into the result is tested with Evaluator::has_side_effects "
-                "on that same expression (push under `if has_side_effects(x)`, or `.filter(|v| has_side_effects(v))`)")
+    R.rule(rid, "preserve_arguments_side_effects, evaluated from its typed tree on a tuple call `f(a, b, c)` and a table call "
+                "`f{ x = a, [b] = c, d }` for every choice of which operands have side effects: the result is exactly the effectful operands, "
+                "each once, in source (evaluation) order; a string call keeps nothing")
     fn = lib.fn("utils::preserve_arguments_side_effects::preserve_arguments_side_effects")
     if not R.require(rid, "anchor", fn is not None, "", "not found"):
         return
-    fa = ctx.an.fa(fn["path"])
+    N = "nodes::"
+    ARGS, TUP, TAB, ENT = N + "arguments::Arguments", N + "arguments::TupleArguments", N + "expressions::table::TableExpression", N + "expressions::table::TableEntry"
+    FE, IE = N + "expressions::table::TableFieldEntry", N + "expressions::table::TableIndexEntry"
+
+    def has(adt, names):
+        a_ = lib.adts.get(adt)
+        have = {f["name"] for v in a_["variants"] for f in v["fields"]} if a_ else set()
+        return R.require(rid, "anchor:fields:" + adt.split("::")[-1], set(names) <= have, ctx.adt_where(adt) if a_ else "", "fields %s" % list(names))
+    if not all([has(TUP, ["values"]), has(TAB, ["entries"]), has(FE, ["value"]), has(IE, ["key", "value"])]):
+        return
+
+    def leaf(tag):
+        return Enum(EXPR_T, "Identifier", {"0": tag})
+
+    def shapes():
+        yield "tuple", ["a", "b", "c"], Enum(ARGS, "Tuple", {"0": Struct(TUP, {"values": [leaf("a"), leaf("b"), leaf("c")]})})
+        yield "table", ["a", "b", "c", "d"], Enum(ARGS, "Table", {"0": Struct(TAB, {"entries": [
+            Enum(ENT, "Field", {"0": Struct(FE, {"value": leaf("a")})}),
+            Enum(ENT, "Index", {"0": Struct(IE, {"key": leaf("b"), "value": leaf("c")})}),
+            Enum(ENT, "Value", {"0": leaf("d")})]})})
+        yield "string", [], Enum(ARGS, "String", {"0": Struct(N + "expressions::string::StringExpression", {})})
     n = 0
-    for c in thir.calls(fn):
-        if c.get("fname") == "push":
-            n += 1
-            pv = {x["var"] for x in thir.walk(c["args"][1]) if x.get("k") == "Var"}
-            ok = False
-            for cond, kind in guards.conditions_of(fa, c):
-                if kind != "then":
-                    continue
-                for h in thir.walk(cond):
-                    if h.get("k") == "Call" and h.get("fname") == "has_side_effects":
-                        hv = {x["var"] for x in thir.walk(h["args"][1]) if x.get("k") == "Var"}
-                        if pv & hv and cond.get("k") != "Unary":
-                            ok = True
-            R.ob(rid, "push@%d" % n, ok, ctx.where(fn, c.get("ln")), "pushed expression is the one tested by has_side_effects: %s" % ok)
-        if c.get("fname") == "filter":
-            n += 1
-            clo = [a for a in c["args"] if a.get("k") == "Closure"]
-            ok = bool(clo) and any(h.get("fname") == "has_side_effects" for h in thir.walk(clo[0]["body"]["body"]) if h.get("k") == "Call") and \
-                not any(h.get("k") == "Unary" and h.get("op") == "Not" for h in thir.walk(clo[0]["body"]["body"]))
-            R.ob(rid, "filter@%d" % n, ok, ctx.where(fn, c.get("ln")), "filter predicate is has_side_effects: %s" % ok)
-    R.require(rid, "floor", n >= 3, ctx.where(fn), "%d keep sites (floor 3)" % n)
-
-
-def tail_only(R, ctx, rid, paths):
-    lib = ctx.lib
-    R.rule(rid, "order-preserving accumulation: in the helpers that turn kept expressions into statements/expressions the accumulator vectors "
-                "are only appended at the tail (push / last_mut / extend) and the input is consumed front to back (no rev / insert / search)")
-    for path in paths:
-        fn = lib.fn(path)
-        if not R.require(rid, "anchor:" + path.split("::")[-1], fn is not None, "", "not found"):
-            continue
-        fa = ctx.an.fa(fn["path"])
+    for name, tags, args in shapes():
         bad = []
-        n = 0
-        for c in thir.calls(fn):
-            if not c["args"] or callee_of(c) in lib.fns:
-                continue
-            ts = lib.ty_str(lib.strip_refs(c["args"][0]["t"]))
-            if (ts.startswith("alloc::vec::Vec<nodes::") or ts.startswith("[nodes::")) and ("Statement" in ts or "Expression" in ts):
+        for k in range(len(tags) + 1):
+            for eff in itertools.combinations(tags, k):
+                def hook(pe, path, fname, a_, node, eff=eff):
+                    if fname == "has_side_effects" and len(a_) == 2 and isinstance(a_[1], Enum) and a_[1].adt == EXPR_T:
+                        return a_[1].fields.get("0") in eff
+                    return NotImplemented
+                import copy
+                pe = peval.PEval(lib, ctx.an, hook)
+                try:
+                    v = pe.call_fn(fn, [Struct("#Evaluator", {}), copy.deepcopy(args)])
+                except peval.OutOfFuel:
+                    v = UNKNOWN
+                if isinstance(v, peval.Iter):
+                    v = v.rest()
+                got = [x.fields.get("0") if isinstance(x, Enum) else "?" for x in v] if isinstance(v, list) else None
                 n += 1
-                if c.get("fname") not in TAIL_OK:
-                    bad.append((c.get("fname"), c.get("ln")))
-            if c.get("fname") in ("rev",) and ("#param", 0) in fa.origins(c["args"][0]):
-                bad.append(("rev", c.get("ln")))
-        for x in thir.walk(thir.body_of(fn)):
-            if x.get("k") == "Index":
-                ts = lib.ty_str(lib.strip_refs(x["e"]["t"]))
-                if ts.startswith("alloc::vec::Vec<nodes::") or ts.startswith("[nodes::"):
-                    bad.append(("[index]", x.get("ln")))
-        R.ob(rid, "%s|tail-only" % path.split("::")[-1], n >= 1 and not bad, ctx.where(fn),
-             "accumulator is touched through %s: an expression can be placed before an earlier-evaluated one" % bad if bad else "%d vector operations, all tail-only" % n)
+                if got != list(eff):
+                    bad.append((list(eff), got, pe.unknown_reasons[:1]))
+        R.ob(rid, "kept|%s-call" % name, not bad, ctx.where(fn),
+             "for every choice of effectful operands the kept list is exactly those operands in order" if not bad else
+             "effectful operands %s -> kept %s %s" % (bad[0][0], bad[0][1] if bad[0][1] is not None else "not established", bad[0][2] or ""))
+    R.require(rid, "floor", n >= 20, ctx.where(fn), "%d (call shape, effectful subset) cells evaluated" % n)
+
+
+def tags_in_order(v, out=None):
+    """Leaves tagged by the scenario, in depth-first field order (= source order of the fields = evaluation order of the
+    nodes built: statements before later statements, left operand before right operand)."""
+    from ..peval import Enum, Struct, Iter
+    out = [] if out is None else out
+    if isinstance(v, Iter):
+        v = v.rest()
+    if isinstance(v, (Enum, Struct)):
+        t = v.fields.get("#tag")
+        if t is not None:
+            out.append(t)
+            return out
+        for f in v.fields.values():
+            tags_in_order(f, out)
+    elif isinstance(v, (list, tuple)):
+        for x in v:
+            tags_in_order(x, out)
+    return out
+
+
+def eval_order(R, ctx, rid):
+    """expressions_as_statement / expressions_as_expression keep evaluation order: finite-domain evaluation."""
+    import itertools
+    from .. import peval
+    from ..peval import Enum, Struct, UNKNOWN
+    lib = ctx.lib
+    R.rule(rid, "the helpers that turn kept expressions into a statement / an expression, evaluated from their typed tree on every sequence of up "
+                "to 4 operands drawn from {plain value, call, parenthesised call}: the node built mentions every operand exactly once and in "
+                "the input order (depth-first: earlier statement first, left operand first), i.e. kept side effects run once and in order")
+    FC = "nodes::function_call::FunctionCall"
+    PAR = "nodes::expressions::parenthese::ParentheseExpression"
+    kinds = {
+        "v": lambda t: Enum(EXPR_T, "Identifier", {"#tag": t}),
+        "c": lambda t: Enum(EXPR_T, "Call", {"0": Struct(FC, {"#tag": t})}),
+        "p": lambda t: Enum(EXPR_T, "Parenthese", {"0": Struct(PAR, {"expression": Enum(EXPR_T, "Call", {"0": Struct(FC, {"#tag": t})})})}),
+    }
+    for path in ("utils::expressions_as_statement::expressions_as_statement", "utils::expressions_as_statement::expressions_as_expression"):
+        fn = lib.fn(path)
+        short = path.split("::")[-1]
+        if not R.require(rid, "anchor:" + short, fn is not None, "", "not found"):
+            continue
+        bad, n = [], 0
+        for length in range(1, 5):
+            for combo in itertools.product("vcp", repeat=length):
+                tags = ["e%d" % i for i in range(length)]
+                seq = [kinds[k](t) for k, t in zip(combo, tags)]
+                pe = peval.PEval(lib, ctx.an)
+                try:
+                    v = pe.call_fn(fn, [seq])
+                except peval.OutOfFuel:
+                    v = UNKNOWN
+                got = tags_in_order(v) if v is not UNKNOWN else None
+                n += 1
+                if got != tags:
+                    bad.append(("".join(combo), got, pe.unknown_reasons[:1]))
+        R.ob(rid, "%s|tail-only" % short, not bad, ctx.where(fn),
+             "all %d operand sequences keep their order" % n if not bad else
+             "operand kinds `%s` (v=value, c=call, p=parenthesised call): built node evaluates %s instead of e0..e%d in order %s: an expression can be placed before an "
+             "earlier-evaluated one" % (bad[0][0], bad[0][1] if bad[0][1] is not None else "<not established>", len(bad[0][0]) - 1, bad[0][2] or ""))
+        R.require(rid, "floor:%s" % short, n >= 100, ctx.where(fn), "%d sequences evaluated" % n)
 
 
 def run(R, ctx):
@@ -194,4 +257,4 @@ def run(R, ctx):
     matchers(R, ctx)
     args(R, ctx)
     keep(R, ctx)
-    tail_only(R, ctx, "C17.order", ["utils::expressions_as_statement::expressions_as_statement", "utils::preserve_arguments_side_effects::preserve_arguments_side_effects"])
+    eval_order(R, ctx, "C17.order")
